@@ -61,7 +61,7 @@ def main(tier, replay=None):
     else:
         designlevel.codec_design(rep, "U_small depth1, 2 evolution steps", depth=1, caps=(1, 3), leafset="small",
                                  evo=2, modes=("dec",), invariants=inv, properties=())
-        designlevel.codec_design(rep, "U_small depth2, 1 evolution step", depth=2, caps=(1, 2), leafset="small",
+        designlevel.codec_design(rep, "U_small depth2 (leaf uint3), 1 evolution step", depth=2, caps=(1, 2), leafset="tiny",
                                  evo=1, modes=("dec",), invariants=inv, properties=())
     for variant in ("impl-old", "static"):
         r = designlevel.run_cfg("MC_Codec", designlevel.codec_cfg(
